@@ -195,6 +195,11 @@ def _set_derived(E, prop):
                 o, g = pm.find_method("System", n.func.attr)
                 if g is not None and check(g):
                     return True
+            if isinstance(n, ast.Call) and isinstance(n.func, ast.Name):
+                # a module-level helper of the package (`unique(<collections>)`): set-built there
+                g = pm.package_function_finder()(n.func.id)
+                if g is not None and check(g):
+                    return True
         return False
     return check(fn)
 
